@@ -9,7 +9,7 @@ ID = "C18"
 LEVEL = "proof"
 SIDECARS = ["contracts.tensor", "contracts.program", "contracts.program_c18", "contracts.equation",
             "contracts.partitioning", "contracts.guards"]
-TARGETS = ["Tensor.__init__", "Program.__init__",
+TARGETS = ["Tensor.__init__", "Program.__init__", "Program.__all_ranks",
            "Equation.__get_tensor", "Equation.__build_tensors_trees", "Equation.__build_active_tensors",
            "Equation.__build_einsum_ranks",
            "Partitioning.__is_static", "Partitioning.__nway_after_dyn", "Partitioning.__check_flatten",
@@ -18,7 +18,8 @@ EXPLANATION = (
     "Each stated rule has a guard function under a raise-iff contract (ValueError <=> the violation, stated over the "
     "names as written), proved for all inputs from the real source: duplicate ranks (Tensor.__init__, and "
     "Program.__init__ reaching it for every declared tensor and rank-order entry), undeclared / repeated tensors and "
-    "terms over different rank sets (ir Equation builders), the flatten rules and n-way-after-occupancy "
+    "terms over different rank sets (ir Equation builders; the rank universe that decides what a flattened rank is, "
+    "Program.__all_ranks, is exactly the ranks of this Einsum's tensors), the flatten rules and n-way-after-occupancy "
     "(Partitioning.__check_flatten / __nway_after_dyn), projection into the output and output-only flattened ranks "
     "(translator, violation => ValueError), Einsum without accelerator config (Bindings.__init__). Must-reach of the "
     "guards from HiFiber.__init__ and the absence of exception handlers are structural lemmas checked on the AST. "
@@ -86,6 +87,20 @@ def extra(uni, tier, seed):
     src = ast.unparse(extract.module("teaal/ir/program.py").func("Program.add_einsum"))
     out.append(Extra("reach/add_einsum constructs a Partitioning on both branches",
                      src.count("self.partitioning = Partitioning(") == 2, ""))
+    # the rank universe Partitioning judges "flattened rank" / "partition level" by is the one proved for __all_ranks
+    fn_ae = extract.module("teaal/ir/program.py").func("Program.add_einsum")
+    assigns = [ast.unparse(n.value) for n in ast.walk(fn_ae) if isinstance(n, ast.Assign)
+               and any(isinstance(t, ast.Name) and t.id == "ranks" for t in n.targets)]
+    pcalls = [n for n in ast.walk(fn_ae) if isinstance(n, ast.Call) and isinstance(n.func, ast.Name) and n.func.id == "Partitioning"]
+    ok = assigns == ["self.__all_ranks()"] and len(pcalls) == 2 and all(
+        len(c.args) == 3 and isinstance(c.args[1], ast.Name) and c.args[1].id == "ranks" and not c.keywords for c in pcalls)
+    out.append(Extra("reach/add_einsum hands Partitioning the rank set returned by __all_ranks (its only definition)", ok,
+                     "assignments to ranks: %s; Partitioning(...) calls: %s" % (assigns, [ast.unparse(c) for c in pcalls])))
+    b = [ast.unparse(s) for s in _body("teaal/ir/partitioning.py", "Partitioning.__init__")]
+    writers = {m for m, fs in structural.methods_storing_fields("teaal/ir/partitioning.py", "Partitioning").items()
+               if "orig_ranks" in fs or "orig_ranks[]" in fs}
+    out.append(Extra("reach/Partitioning.orig_ranks is the constructor's `ranks` argument and is never rewritten",
+                     b[0] == "self.orig_ranks = ranks" and writers == {"__init__"}, "%s; writers %s" % (b[0], sorted(writers))))
     b = [ast.unparse(s) for s in _body("teaal/trans/hifiber.py", "HiFiber.__init__")]
     out.append(Extra("reach/HiFiber.__init__ starts by building the Program", b[0] == "self.program = Program(einsum, mapping)", b[0]))
     return out
@@ -93,6 +108,10 @@ def extra(uni, tier, seed):
 
 def refute(uni, ob, replay_dir):
     from props import legality_family
+    if ob is not None and getattr(ob, "func", None):
+        w = common.native_refute(uni, _sidecars(), ob, replay_dir)
+        if w is not None:
+            return w
     ev, dist, fails, _ = legality_family.sweep()
     if fails:
         w = dict(fails[0]["witness"])
